@@ -132,6 +132,8 @@ class Session:
             "stop_threads": a._stop_threads if a is not None else None,
             "queues": (len(a._recv_messages._q), len(a._send_messages._q)) if a is not None else None,
             "psm_running": self.d._peer_state_machine.is_running if self.d._peer_state_machine else None,
+            # base requests of the node that still await their answer (by command code)
+            "pending": tuple(sorted(m.header.get_command_code() for m in list(a.pending_requests.values()))) if a is not None else None,
         }
         if extra:
             o.update(extra)
@@ -222,6 +224,9 @@ class Session:
             "dwr-otherhost": lambda: node.dwr(hbh, e2e, host="intruder.example"),
             "dwa": lambda: node.dwa(hbh, e2e),
             "dwa-otherhost": lambda: node.dwa(hbh, e2e, host="intruder.example"),
+            # answers that echo the identifiers of the request the node really sent (a second one is a duplicate)
+            "dwa-echo": lambda: node.dwa(*self.last_request_ids(280)),
+            "dpa-echo": lambda: node.dpa(*self.last_request_ids(282)),
             "dpr": lambda: node.dpr(hbh, e2e),
             "dpr-otherhost": lambda: node.dpr(hbh, e2e, host="intruder.example"),
             "dpa": lambda: node.dpa(hbh, e2e),
@@ -365,6 +370,11 @@ def judge(role, prev, o, history_ctx):
                     errs.append((sig("R10:dwa-count-back-to-back"), f"R10: two DWRs answered by {len(emitted(280, False))} DWA(s)"))
             elif what == "dwr-otherhost-2realm":
                 allow({ps, "Closing", "Closed"}, "R11")
+            elif what == "dwa-echo" and prev and 280 in (prev.get("pending") or ()):
+                # the answer to the node's outstanding watchdog request, from the configured peer
+                allow({ps}, "R10")
+            elif what == "dwa-echo":
+                allow({ps, "Closing", "Closed"}, "R11")
             elif what in ("dwr-otherhost", "dwa", "dwa-otherhost", "cea", "cea-echo", "dpa", "cea-otherhost", "cea-incomplete"):
                 allow({ps, "Closing", "Closed"}, "R11")
             elif what in ("cer", "cer-otherhost", "cer-incomplete", "cer-otherrealm"):
@@ -413,7 +423,7 @@ def judge(role, prev, o, history_ctx):
             if "submitted" in o and not o.get("raised"):
                 pass
     elif ps == "Closing":
-        if kind == "msg" and what == "dpa":
+        if kind == "msg" and what in ("dpa", "dpa-echo"):
             allow({"Closed"}, "R17")
         elif kind == "msg":
             allow({"Closing", "Closed"}, "R18")
@@ -476,7 +486,7 @@ def run_history(role, apps, history, watchdog=30):
 
 
 MSGS_OPEN = ["dwr", "dwr-otherhost", "dwr-otherhost-2realm", "dwa", "dwa-otherhost", "dpr", "dpr-otherhost", "dpa", "cer", "cer-otherhost",
-             "cea", "app-req", "app-ans", "req-otherhost", "req-otherrealm", "dwr+dwr", "dwr+app"]
+             "cea", "cea-echo", "dwa-echo", "app-req", "app-ans", "req-otherhost", "req-otherrealm", "dwr+dwr", "dwr+app"]
 MSGS_WAIT_CEA = ["cea-echo", "cea-echo-2ip", "cea-otherhost", "cea-otherhost-2ip", "cea-incomplete", "cer", "dwr", "dwa", "dpr", "dpa", "app-req", "app-ans"]
 MSGS_SERVER_CLOSED = ["cer", "cer-2ip", "cer-otherhost", "cer-otherhost-2ip", "cer-otherrealm", "cer-incomplete", "dwr", "app-req", "cea", "dpr"]
 
@@ -522,7 +532,7 @@ class FsmModel:
                 evs += [("msg+close", "app-req"), ("msg+close", "dwr"), ("msg+eof", "app-req"), ("msg+eof", "dwr")]
                 evs += [("send",), ("idle", 4.0 if self.watchdog > 10 else 2.0 * self.watchdog + 3.0)]
             elif state == "Closing":
-                evs += [("msg", m) for m in ("dpa", "dwr", "app-req", "dpr", "dwa")]
+                evs += [("msg", m) for m in ("dpa", "dpa-echo", "dwr", "app-req", "dpr", "dwa", "dwa-echo")]
             elif state == "Closed" and self.role == "server":
                 evs += [("msg", m) for m in MSGS_SERVER_CLOSED + ["cer+dwr"]]
             evs.append(("eof",))
@@ -551,7 +561,7 @@ class FsmModel:
         last_kind = st["history"][-1][0] if st["history"] and st["history"][-1][0] in ("start",) else ""
         return (o["state"], o["conn"], o["transport_released"], o["sock_closed"], o["sock_registered"],
                 tuple(n.rstrip("0123456789") for n in o["live"]), len(o["crashed"]), o["assoc_lock"], o["pp_lock"], o["tr_lock"],
-                o["state_is_active"], o["stop_threads"], o["queues"], o["psm_running"], min(starts, 2), last_kind)
+                o["state_is_active"], o["stop_threads"], o["queues"], o["psm_running"], o.get("pending"), min(starts, 2), last_kind)
 
 
 def configs(tier):
